@@ -281,19 +281,27 @@ def format_post(c):
     if l0.k != 'any' or size.k != 'int':
         return z3.BoolVal(False)
 
-    def node_ok(v, which):
-        # the converted node, or -99 when the conversion gives None
+    convs = [e for e in t if e[0] == 'node-converted']
+
+    def node_ok(v, which, k):
+        # the converted node, or -99 when (and only when) the conversion gives None
         if v.k == 'int':
-            return z3.BoolVal(z3.is_int_value(z3.simplify(v.z)) and z3.simplify(v.z).as_long() == -99)
+            if len(convs) != 2:
+                return z3.BoolVal(False)
+            conv = z3.Const(convs[k][2], VV.Any)
+            return z3.And(z3.BoolVal(z3.is_int_value(z3.simplify(v.z)) and z3.simplify(v.z).as_long() == -99),
+                          VV.tag_of(conv) == TAGS['none'])
         src = v.extra.get('from') if v.k == 'any' and v.extra else None
         same_src = src is not None and src.k == which.k and (src.k == 'none' or z3.eq(src.z, which.z))
-        return z3.BoolVal(bool(same_src))
+        if not same_src:
+            return z3.BoolVal(False)
+        return VV.tag_of(v.z) != TAGS['none']           # a conversion that gives None is never passed on: -99 stands for it
     relsrc, loopsrc = c.pre.self.v('release_node'), c.pre.self.v('loop_node')
     tail = [e for e in t[heads[-1]:] if e[0] in ('append', 'flop', 'flop-to-tuples')]
     ok_tail = [e[0] for e in tail] == ['flop', 'flop-to-tuples'] and c.resultv.k == 'obj' \
         and c.resultv.oid == 'channel-arrays'
     return z3.And(l0.z == sel('levels', 0), size.z == z3.Int('self.times.len'),
-                  node_ok(rel, relsrc), node_ok(loop, loopsrc), z3.BoolVal(bool(ok_tail)))
+                  node_ok(rel, relsrc, 0), node_ok(loop, loopsrc, 1), z3.BoolVal(bool(ok_tail)))
 
 
 def times_kind(eng, name):
